@@ -9,7 +9,7 @@ case only — no regenerated definition is used):
      reset, nothing after either)                                                          — theorem `sender_once`
   2. the clean-up body ran exactly once iff the exchange is done, never twice               — theorem `clean_once`
   3. a finished exchange has a classified outcome (complete reply / reset / client gone / one-way), never silence; an
-     unfinished started exchange is two-way and has delivered no terminal event yet         — theorem `outcome_total`
+     unfinished started exchange is two-way, has delivered no terminal event yet and waits for a live upstream request         — theorem `outcome_total`
   4. once the global timeout fired after the start, the exchange is finished                — theorem `timeout_completes`
 A `mc <cfg> <amb> <limit>` case runs the explicit-state exploration of the model (every schedule up to the state limit)
 against the executable invariant; it has no implementation side.
@@ -26,7 +26,7 @@ def spec (cs : Case) (i : Impl) : Bool :=
     senderOk t
     && nLog t == (if i.done then 1 else 0)
     && (!i.done || terminal || cs.cfg.oneway || cs.sched.any isClientGone)
-    && (i.done || !started || (!cs.cfg.oneway && !terminal))
+    && (i.done || !started || (!cs.cfg.oneway && !terminal && i.up ≥ 1))
     && (!timeoutAfterStart cs.sched || i.done)
 
 def run (caseToks impl : List String) : String :=
